@@ -101,10 +101,10 @@ struct XSched : Engine {
         for (auto& t : triples) H.push_back({ { t[0], t[1], t[2] } });
     }
     std::vector<std::string> stages() override { if (!cfg.opt.count("hang_s")) cfg.opt["hang_s"] = "1200";   // one case = a whole schedule space
-        std::vector<std::string> st = { "bound0", "bound1", "bound2", "bound3" }; if (cfg.thorough()) { st.push_back("bound4"); st.push_back("bound5"); } return st; }
+        std::vector<std::string> st = { "bound0", "bound1", "bound2", "bound3", "hooks0", "hooks1" };   /* hooksN: preemption bound N with user-supplied allocation functions installed before the threads start */ if (cfg.thorough()) { st.push_back("bound4"); st.push_back("bound5"); } return st; }
     void enumerate(const std::string& stage) override {
-        build_harnesses(); int bound = atoi(stage.c_str() + 5);
-        for (size_t h = 0; h < H.size(); h++) { if (H[h].progs.size() == 3 && bound > (cfg.thorough() ? 3 : 2)) continue; if (!pool_take()) continue; static Case c; c.kind = 0; c.iv[1] = (int64_t)h; c.iv[2] = bound; c.len = 0; pool_run(c); }
+        build_harnesses(); int bound = atoi(stage.c_str() + 5); bool hooks = stage.compare(0, 5, "hooks") == 0;
+        for (size_t h = 0; h < H.size(); h++) { if (H[h].progs.size() == 3 && (hooks || bound > (cfg.thorough() ? 3 : 2))) continue; if (!pool_take()) continue; static Case c; c.kind = 0; c.iv[1] = (int64_t)h; c.iv[2] = bound; c.iv[3] = hooks; c.len = 0; pool_run(c); }
     }
 
     // ---- one controlled execution
@@ -140,9 +140,12 @@ struct XSched : Engine {
         if (log) *log = R.log; return out;
     }
 
+    static void* user_malloc(size_t n) { return malloc(n); }
+    static void user_free(void* p) { free(p); }
     void run_case(const Case& c, bool vb) override {
         verbose = vb; build_harnesses(); size_t hi = (size_t)c.iv[1]; if (hi >= H.size()) return; const Harness& h = H[hi]; int bound = (int)c.iv[2]; int n = (int)h.progs.size();
         std::string hname = describe(c);
+        struct HookScope { bool on; HookScope(bool o) : on(o) { if (on) { cJSON_Hooks hk = { user_malloc, user_free }; cJSON_InitHooks(&hk); } } ~HookScope() { if (on) cJSON_InitHooks(nullptr); } } hookscope(c.iv[3] != 0);
         // phase 1: solo runs (reference observations, static access sets), error location
         std::set<uintptr_t> E; { R.logging = true; R.log.clear(); my_tid = 0; (void)cJSON_GetErrorPtr(); my_tid = -1; R.logging = false; for (auto& a : R.log) for (uint32_t i = 0; i < a.size; i++) E.insert(a.addr + i); }
         std::vector<std::string> ref(n); std::vector<std::map<uintptr_t, int>> acc(n);   // byte -> 1 read, 2 write
@@ -181,7 +184,7 @@ struct XSched : Engine {
         if (capped && conflicts.empty()) violation("harness:schedule-cap", hname + ": schedule cap reached at bound " + std::to_string(bound) + " (not exhaustive)");
         if (vb) printf("  %s bound=%d schedules=%llu max points=%llu distinct outcome vectors=%zu relevant static bytes=%zu\n", hname.c_str(), bound, (unsigned long long)schedules, (unsigned long long)maxpts, outcomes.size(), R.rel.size());
     }
-    std::string describe(const Case& c) override { build_harnesses(); size_t hi = (size_t)c.iv[1]; if (hi >= H.size()) return "?"; std::string s = "threads{"; for (size_t t = 0; t < H[hi].progs.size(); t++) { if (t) s += " || "; s += progs::all()[H[hi].progs[t]].name; } return s + "} preemption bound " + std::to_string(c.iv[2]); }
+    std::string describe(const Case& c) override { build_harnesses(); size_t hi = (size_t)c.iv[1]; if (hi >= H.size()) return "?"; std::string s = c.iv[3] ? "custom-hooks threads{" : "threads{"; for (size_t t = 0; t < H[hi].progs.size(); t++) { if (t) s += " || "; s += progs::all()[H[hi].progs[t]].name; } return s + "} preemption bound " + std::to_string(c.iv[2]); }
     void finish(std::map<std::string, std::string>& x) override {
         x["rule"] = jstr("one case = one multi-threaded harness (all unordered pairs of the 12 thread programs + 8 triples) at one preemption bound; all schedules with at most that many preemptions are executed (scheduling points = accesses, incl. through wrapped libc calls, to static bytes that one thread writes and another touches, plus the error location); "
                          "per schedule every thread's observation must equal its solo observation; non-trivial = harnesses with more than one schedule");
